@@ -1,5 +1,6 @@
 pub mod capi;
 pub mod echo;
+pub mod thr;
 
 pub type LaneFn = fn(&str) -> String;
 
@@ -7,6 +8,7 @@ pub fn find(name: &str) -> Option<LaneFn> {
     Some(match name {
         "capi" => capi::run,
         "echo" => echo::run,
+        "thr" => thr::run,
         _ => return None,
     })
 }
